@@ -481,7 +481,16 @@ class Interp:
             for a in ty['args']:
                 if 'const' in a:
                     cap = self.const_arg_poly(a['const'], genv)
-            return ContV('hist', ('sym', name), length=None, cap=cap)
+            # number of samples ever written, saturating at the capacity (HistoryBuffer::len); the iterator adaptors keep
+            # working on the uninterpreted term, the fill level is carried beside it
+            fill = Poly.sym('fill(%s)' % name)
+            fa = fill.as_single_atom()
+            st.ctx.int_atoms.add(fa)
+            hi_ = cap.const_value() if cap is not None and cap.const_value() is not None else Fr(2 ** 32)
+            st.ctx.ranges[fa] = (Fr(0), hi_)
+            if cap is not None and cap.const_value() is None:
+                st.ctx.assume(cmp_term('Le', fill, cap))
+            return ContV('hist', ('sym', name), length=None, cap=cap, extra={'fill': fill})
         if path.startswith('core::option::Option'):
             return EnumV(path, None, {}, [0, 1], name=name, vnames=['None', 'Some'], targs={'T': ty['args'][0].get('ty') if ty['args'] else None})
         return LazyV(ty, name)
@@ -1178,7 +1187,12 @@ class Interp:
     def jump(self, st, fr, target):
         """move frame to block `target`, applying the loop-head havoc abstraction"""
         if target is None:
-            st.status = 'diverged'
+            # a call without a return target: every diverging function of a no_std crate is a panic entry point
+            # (`core::panicking::*`, `assert_failed` of debug_assert_eq!, `unwrap_failed`, ...)
+            key = 'panic@%s#%s' % (fr.fn['path'], self.site_ordinal(fr, fr.bb))
+            st.obligations.append(Obligation('panic-call', fr.fn['path'], fr.body['blocks'][fr.bb]['term'].get('span', ''), 'diverging call (no return target)', 'violated', key))
+            st.status = 'panic'
+            st.panic_info = 'diverging call (no return target)'
             return 'stop'
         probe = getattr(st, 'probe', None)
         if probe is not None and len(st.frames) - 1 == probe[0] and fr is st.frames[probe[0]] and target not in probe[2]:
